@@ -256,6 +256,140 @@ theorem checkFirstBest_sound {segs : List Seg} {ls : List Link} (h : checkFirstB
   simp only [Bool.and_eq_true, beq_iff_eq] at h
   exact ⟨ls, (pathB_iff _ _ _).1 h.1, h.2⟩
 
+theorem orElse_isSome_right {α : Type} (a b : Option α) (h : b.isSome = true) : (a <|> b).isSome = true := by
+  cases a with
+  | none => simpa using h
+  | some x => rfl
+
+theorem orElse_isSome_left {α : Type} (a b : Option α) (h : a.isSome = true) : (a <|> b).isSome = true := by
+  cases a with
+  | none => cases h
+  | some x => rfl
+
+/-- the search for a witness path is complete: whenever the segmentation is the instance sequence of a
+path to the end node, the search (with enough fuel) finds a path -/
+theorem findSegPath_complete : ∀ (ls : List Link) (u : Nat) (segs : List Seg) (fuel : Nat),
+    Path L u ls L.final → instances L u ls = segs → ls.length < fuel → (findSegPath L fuel u segs).isSome = true := by
+  intro ls
+  induction ls with
+  | nil =>
+    intro u segs fuel hp hi hf
+    have hu : u = L.final := hp.eq_of_nil
+    cases fuel with
+    | zero => omega
+    | succ fuel =>
+      unfold findSegPath
+      simp only [instances] at hi
+      cases hr : (L.node u).real with
+      | true =>
+        rw [hr] at hi
+        simp only [if_true] at hi ⊢
+        subst hi
+        simp only [and_self, if_true]
+        apply orElse_isSome_left
+        simp [hu]
+      | false =>
+        rw [hr] at hi
+        simp only [Bool.false_eq_true, if_false] at hi ⊢
+        subst hi
+        apply orElse_isSome_left
+        simp [hu]
+  | cons l ls ih =>
+    intro u segs fuel hp hi hf
+    cases hp with
+    | cons hm hs hrest =>
+      cases fuel with
+      | zero => omega
+      | succ fuel =>
+        have hlen : ls.length < fuel := by simp at hf; omega
+        unfold findSegPath
+        simp only [instances] at hi
+        have hex : l ∈ exits L u := by
+          simp only [exits, List.mem_filter, beq_iff_eq]; exact ⟨hm, hs⟩
+        cases hr : (L.node u).real with
+        | true =>
+          rw [hr] at hi
+          simp only [if_true, List.singleton_append] at hi ⊢
+          subst hi
+          simp only [and_self, if_true]
+          apply orElse_isSome_right
+          rw [List.findSome?_isSome_iff]
+          refine ⟨l, hex, ?_⟩
+          rw [if_pos rfl, Option.isSome_map]
+          exact ih l.dst _ fuel hrest rfl hlen
+        | false =>
+          rw [hr] at hi
+          simp only [Bool.false_eq_true, if_false, List.nil_append] at hi ⊢
+          subst hi
+          apply orElse_isSome_right
+          rw [List.findSome?_isSome_iff]
+          refine ⟨l, hex, ?_⟩
+          rw [Option.isSome_map]
+          exact ih l.dst _ fuel hrest rfl hlen
+
+theorem orElse_eq_some {α : Type} {a b : Option α} {x : α} (h : (a <|> b) = some x) : a = some x ∨ (a = none ∧ b = some x) := by
+  cases a with
+  | none => exact Or.inr ⟨rfl, by simpa using h⟩
+  | some y => exact Or.inl (by simpa using h)
+
+/-- the search is sound: a path it returns leads to the end node and has the given instance sequence -/
+theorem findSegPath_sound : ∀ (fuel u : Nat) (segs : List Seg) (ls : List Link),
+    findSegPath L fuel u segs = some ls → Path L u ls L.final ∧ instances L u ls = segs := by
+  intro fuel
+  induction fuel with
+  | zero => intro u segs ls h; simp [findSegPath] at h
+  | succ fuel ih =>
+    intro u segs ls h
+    unfold findSegPath at h
+    cases hr : (L.node u).real with
+    | true =>
+      rw [hr] at h
+      simp only [if_true] at h
+      cases segs with
+      | nil => simp at h
+      | cons s rest =>
+        simp only at h
+        split at h
+        · rename_i hc
+          rcases orElse_eq_some h with h1 | ⟨_, h2⟩
+          · split at h1
+            · rename_i hfin
+              cases h1
+              obtain ⟨rfl, rfl, hef⟩ := hfin
+              refine ⟨.nil _, ?_⟩
+              simp only [instances, hr, if_true]
+              cases s
+              simp_all
+            · cases h1
+          · obtain ⟨l, hl, hfl⟩ := List.exists_of_findSome?_eq_some h2
+            by_cases hef : (if (L.node l.dst).real = true then l.ef else (L.node u).lef) = s.ef
+            · rw [if_pos hef] at hfl
+              obtain ⟨ls', h3, rfl⟩ := Option.map_eq_some_iff.1 hfl
+              obtain ⟨hp, hi⟩ := ih l.dst rest ls' h3
+              have hm : l ∈ L.links ∧ l.src = u := by simpa [exits, List.mem_filter] using hl
+              refine ⟨.cons hm.1 hm.2 hp, ?_⟩
+              simp only [instances, hr, if_true, hi, List.singleton_append, List.cons.injEq, and_true]
+              rw [hef]
+              cases s
+              simp_all
+            · rw [if_neg hef] at hfl; cases hfl
+        · cases h
+    | false =>
+      rw [hr] at h
+      simp only [Bool.false_eq_true, if_false] at h
+      rcases orElse_eq_some h with h1 | ⟨_, h2⟩
+      · split at h1
+        · rename_i hfin
+          cases h1
+          obtain ⟨rfl, rfl⟩ := hfin
+          exact ⟨.nil _, by simp [instances, hr]⟩
+        · cases h1
+      · obtain ⟨l, hl, hfl⟩ := List.exists_of_findSome?_eq_some h2
+        obtain ⟨ls', h3, rfl⟩ := Option.map_eq_some_iff.1 hfl
+        obtain ⟨hp, hi⟩ := ih l.dst segs ls' h3
+        have hm : l ∈ L.links ∧ l.src = u := by simpa [exits, List.mem_filter] using hl
+        exact ⟨.cons hm.1 hm.2 hp, by simp [instances, hr, hi]⟩
+
 theorem cache_same (c : Cache) (f : Nat) (b b' : Bool) (id : Nat) (h : (c.request f b).2 = some id) :
     ((c.request f b).1.request f b').2 = some id ∧ ((c.request f b).1.request f b').1 = (c.request f b).1 := by
   unfold Cache.request at h ⊢
